@@ -173,11 +173,10 @@ def build(ctx):
     obs.append(Obligation("before_simulate", src.statement, src.run, src.functions, src.backend, rt_replay))
 
     def interp_fill():
-        v = c10obs["interpolator.post"].run()
-        if v.status != be.PROVED:
-            return v
-        # node values: I(t_k) == y_k is the interp1d node axiom for the x / y established by interpolator.post
-        return v
+        # state part (x, y, fill values are those of the current state) plus the semantic part: F(t_k) = recovery[k] by the
+        # interp1d node axiom, 0 before the first time, the final recovery after the last - for every strictly increasing
+        # grid of any sign; the interp1d precondition (distinct abscissae) is an obligation
+        return c10.interp_post_full(ctx)
 
     obs.append(Obligation("interp.nodes_and_fill", "recovery_factor_interpolator(): over (simulated times, recovery) hence equal to recovery at the simulated times (interp1d node values), fill values 0 before the first time and the final recovery after the last, no bounds error", interp_fill, [resv.RFI], "STRUCT", rt_replay))
 
@@ -189,6 +188,9 @@ def build(ctx):
         return be.prove_smt(tm.eq(tm.subst(t, sub), t), [])
 
     obs.append(Obligation("canary.smt", "CANARY (must be refuted): the mesh number is unchanged when only the new time is shifted", canary, [resv.ISIM], "SMT", expect=be.REFUTED))
+    tp = resv.twophase_delegates(ctx)
+    tp.id = "dep." + tp.id
+    obs.append(tp)
     return obs
 
 
